@@ -99,8 +99,6 @@ fn c07_residency_page_load_n1() {
     bytes[..RESIDENCY_ENTRY_SIZE].copy_from_slice(&eb);
     kani::cover!(q == 4, "first ekey byte corrupted");
     let loaded = ResidencyPage::from_bytes(&bytes);
-    let short = ResidencyPage::from_bytes(&bytes[..RESIDENCY_PAGE_SIZE - 1]);
-    assert!(short.is_none(), "page truncated by one byte must be rejected");
     if let Some(pg) = &loaded {
         if pg.len() > 0 {
             let got = &pg.entries()[0];
@@ -134,4 +132,36 @@ fn c07_residency_entry_guard_coverage() {
     let g = ResidencyEntry::compute_hash_guard(&b);
     assert!(g == ref_hash31(&b[4..37], 0) | 0x8000_0000, "hash guard is not hashlittle(bytes[4..37], 0) | 0x80000000");
     kani::cover!(b[36] == 7, "a mark-non-resident entry");
+}
+
+// @harness prop=C07 tier=quick timeout=600 role=residency-page-truncation
+// @bounds one-entry page from the real writer with symbolic fields; slice truncated by one byte; the untruncated page loads with the entry intact
+// @encodes cascette_client_storage::kmt::key_state::ResidencyPage::from_bytes, cascette_client_storage::kmt::key_state::ResidencyPage::to_bytes
+// @assumes hashlittle is an ideal hash (only determinism and bit 31 matter here)
+// @catches `<` vs `<=` in the page-length check, loader dropping or mangling a good entry
+#[kani::proof]
+#[kani::unwind(27)]
+#[kani::stub(cascette_crypto::jenkins::hashlittle, ideal::hashlittle_ideal31)]
+fn c07_residency_page_truncated() {
+    let ekey: [u8; 16] = kani::any();
+    let span = any_span();
+    let tk: u8 = kani::any();
+    kani::assume(tk < 5);
+    let mut page = ResidencyPage::new();
+    assert!(page.push(ResidencyEntry::new(ekey, span, type_of(tk))));
+    let bytes = page.to_bytes();
+    let short = ResidencyPage::from_bytes(&bytes[..RESIDENCY_PAGE_SIZE - 1]);
+    assert!(short.is_none(), "page truncated by one byte must be rejected");
+    let full = ResidencyPage::from_bytes(&bytes);
+    kani::cover!(full.is_some(), "the untruncated page loads");
+    match &full {
+        Some(pg) => {
+            assert!(pg.len() == 1, "exactly the written entry is loaded");
+            let got = pg.entries()[0];
+            assert!(got.ekey == ekey && got.span == span && got.update_type == type_of(tk) && got.validate_hash_guard(), "good entry mangled by the loader");
+        }
+        None => assert!(false, "the untruncated page must load"),
+    }
+    std::mem::forget(full);
+    std::mem::forget(page);
 }
